@@ -92,10 +92,21 @@ def rand_polyatomic(rng, name="XYZ", stoich=None, charge=None, linear=None, nmod
     ie = rng.uniform(5.0, 20.0) * EV
     return _sp.Polyatomic(name, stoich, rng.uniform(1e-2, 0.4), charge, ie, rng.uniform(1.0, 20.0) * EV, linear,
                           rng.choice([1, 2, 3, 6, 12]), rng.choice([1, 2, 3]),
-                          [rng.uniform(0.02, 0.5) * EV for _ in range(nmodes)],
+                          degenerate_modes(rng, nmodes),
                           [rng.uniform(1e-5, 8e-3) * EV for _ in range(3)],
                           10 ** rng.uniform(-31, -29), rng.choice([1, 2, 3]), rng.uniform(2, 20),
                           rand_ecs(rng) if charge == 0 else None, [], ["synthetic"])
+
+
+def degenerate_modes(rng, nmodes):
+    """vibrational frequencies; real data lists a degenerate mode once per degeneracy (CO2 bend twice, CH4 E and F2 modes)"""
+    ws = []
+    while len(ws) < nmodes:
+        w = rng.uniform(0.02, 0.5) * EV
+        ws += [w] * rng.choice([1, 1, 1, 2, 3])
+    ws = ws[:nmodes]
+    rng.shuffle(ws)
+    return ws
 
 
 def rand_species(rng, cls=None):
